@@ -11,6 +11,7 @@ import (
 	"sort"
 	"strconv"
 	"strings"
+	"syscall"
 	"time"
 
 	"github.com/ulikunitz/lz/simyield"
@@ -387,7 +388,10 @@ func cmdWorker(args []string) int {
 		if *shadow && run%sampleEvery != 0 {
 			continue
 		}
-		if *maxsec > 0 && time.Since(start).Seconds() > *maxsec {
+		// the cap is on the CPU time of this worker, so that the number of runs
+		// a tier completes does not depend on what else the machine is doing
+		// (with a wall clock safety net at four times the cap)
+		if *maxsec > 0 && (cpuSeconds() > *maxsec || time.Since(start).Seconds() > 4**maxsec) {
 			wo.Truncated = true
 			break
 		}
@@ -849,4 +853,13 @@ func cmdNeutral(args []string) int {
 		return 1
 	}
 	return 0
+}
+
+// cpuSeconds is the CPU time (user + system) this process has consumed.
+func cpuSeconds() float64 {
+	var ru syscall.Rusage
+	if err := syscall.Getrusage(syscall.RUSAGE_SELF, &ru); err != nil {
+		return 0
+	}
+	return float64(ru.Utime.Sec+ru.Stime.Sec) + float64(ru.Utime.Usec+ru.Stime.Usec)/1e6
 }
